@@ -175,6 +175,77 @@ theorem conj_pair_combine' [DecidableEq K] {J : K} (hJ : J * J = -1) (h20 : (1 +
     field_simp
     ring
 
+/-! ### the residue loop -/
+
+section loop
+variable [DecidableEq K]
+
+theorem sumPF_erase (s : K) (R : List (K × K × Nat)) (x : K × K × Nat) (hx : x ∈ R) :
+    sumPF R s = x.1 / pw (s - x.2.1) x.2.2 + sumPF (R.erase x) s := by
+  induction R with
+  | nil => simp at hx
+  | cons y R ih =>
+    by_cases hxy : y = x
+    · subst hxy; obtain ⟨r, p, o⟩ := y; simp [sumPF]
+    · have hx' : x ∈ R := by
+        rcases List.mem_cons.mp hx with h | h
+        · exact absurd h.symm hxy
+        · exact h
+      obtain ⟨r, p, o⟩ := y
+      have : ((r, p, o) :: R).erase x = (r, p, o) :: R.erase x := by
+        rw [List.erase_cons_tail]; simpa using hxy
+      rw [this]; simp only [sumPF, ih hx']; ring
+
+/-- the whole residue loop of `ratfun`: when the partner search only accepts first-order entries
+    (`Gen.conjPartnerMustBeSimple`), its output has the transform `e^{−sT} Σ r/(s−p)^o`. -/
+theorem ratfun_loop_sound' (hflag : Gen.conjPartnerMustBeSimple = true) {J : K} (hJ : J * J = -1)
+    (h20 : (1 + 1 : K) ≠ 0) (conj : K → K) (T s : K) :
+    ∀ (fuel : Nat) (R : List (K × K × Nat)), R.length ≤ fuel → (∀ x ∈ R, 0 < x.2.2) → (∀ x ∈ R, s - x.2.1 ≠ 0) →
+      L E (ratfunLoop J conj T fuel R) s = E (-(s * T)) * sumPF R s := by
+  intro fuel
+  induction fuel with
+  | zero =>
+    intro R hl _ _
+    have : R = [] := List.eq_nil_of_length_eq_zero (Nat.le_zero.mp hl)
+    subst this; simp [ratfunLoop, sumPF]
+  | succ fuel ih =>
+    intro R hl ho hn
+    cases R with
+    | nil => simp [ratfunLoop, sumPF]
+    | cons y R =>
+      obtain ⟨r, p, o⟩ := y
+      have hl' : R.length ≤ fuel := by simpa using hl
+      have ho' : ∀ x ∈ R, 0 < x.2.2 := fun x hx => ho x (by simp [hx])
+      have hn' : ∀ x ∈ R, s - x.2.1 ≠ 0 := fun x hx => hn x (by simp [hx])
+      have hp : s - p ≠ 0 := hn (r, p, o) (by simp)
+      have hop : 0 < o := ho (r, p, o) (by simp)
+      simp only [ratfunLoop]
+      split
+      · rename_i ho1
+        subst ho1
+        split
+        · rename_i rc pc oc hfind
+          have hmem : (rc, pc, oc) ∈ R := List.mem_of_find?_eq_some hfind
+          have hprop := List.find?_some hfind
+          simp only [hflag, Bool.not_true, Bool.or_false, decide_eq_true_eq, Bool.and_eq_true, Bool.decide_and] at hprop
+          obtain ⟨hpc, hne, hoc⟩ := hprop
+          have hoc1 : oc = 1 := by rcases hoc with h | h; exact h; exact absurd h (by simp)
+          subst hoc1
+          have hpc' : s - pc ≠ 0 := hn' _ hmem
+          rw [L_append, conj_pair_combine' E hJ h20 r rc p pc T s (Ne.symm hne) hp hpc',
+            ih (R.erase (rc, pc, 1)) (by
+              have := List.length_erase_of_mem hmem; omega)
+              (fun x hx => ho' x (List.mem_of_mem_erase hx)) (fun x hx => hn' x (List.mem_of_mem_erase hx))]
+          rw [show sumPF ((r, p, 1) :: R) s = r / pw (s - p) 1 + sumPF R s from rfl,
+            sumPF_erase s R (rc, pc, 1) hmem]
+          simp [pw]; ring
+        · rw [L_cons, ih R hl' ho' hn']
+          simp [Term.L, sumPF, pw]; ring
+      · rw [L_cons, ih R hl' ho' hn']
+        have : o - 1 + 1 = o := Nat.sub_add_cancel hop
+        simp only [Term.L, sumPF, pw_eq, this]; ring
+end loop
+
 /-! ### causality bookkeeping -/
 
 theorem make_guard' [DecidableEq K] (parts : List (ExpPoly K × ExpPoly K))
